@@ -591,7 +591,8 @@ var leafTypesMain = []reflect.Type{tof(int(0)), tof(""), tof(float64(0)), tof(fa
 	tof(complex128(0)), tof(float32(0)), tof([]int(nil)), tof([3]int{}), tof([]string(nil)), tof([]*int(nil)), tof(map[string]int(nil)),
 	tof(S1{}), tof(SP{}), tof(SE{}), tof(SN{}), tof(SPtr{}), tof(SL{}), tof((**int)(nil)), tof((*int)(nil)), tof((*S1)(nil)), tof((*[]int)(nil)),
 	tof([][]int(nil)), tof([]S1(nil)), tof([]SP(nil)), tof([]map[string]int(nil)), tof(map[int]string(nil)), tof(SPP{}), tof([]float64(nil)),
-	tof(map[string][]int(nil)), tof(map[string]*int(nil)), tof(map[string]S1(nil)), tof([2]int{}), tof([]bool(nil)), tof([]int8(nil)), tof([]SE(nil)), tof([]*S1(nil))}
+	tof(map[string][]int(nil)), tof(map[string]*int(nil)), tof(map[string]S1(nil)), tof([2]int{}), tof([]bool(nil)), tof([]int8(nil)), tof([]SE(nil)), tof([]*S1(nil)),
+	tof([4]uint8{}), tof([]uint8(nil)), tof([4]uint8{})} // octets: a byte array held by value (an IPv4 address, a digest) is not addressable
 var leafTypesAwk = []reflect.Type{tof(SQ{}), tof(SE1{}), tof(Se{}), tof(SA{}), tof(S0{}), tof(S1b{}), tof(S1c{}), tof(SE2{}), tof(SF{}), tof(SEn{}), tof(func() {}), tof(func() int { return 0 }),
 	tof((chan int)(nil)), tof(MyInt(0)), tof(MyStr("")), tof(uintptr(0)), tof(unsafe.Pointer(nil)), tof([]any(nil)), tof(map[string]any(nil)), tof((*any)(nil)),
 	tof((*func())(nil)), tof((*chan int)(nil)), tof([]chan int(nil)), tof(([]func())(nil)), tof([]uintptr(nil)), tof([]MyInt(nil)), tof([]Se(nil)),
